@@ -128,7 +128,14 @@ impl AisParser {
     /// If it is `false`, then internal AIS messages will be ignored.
     /// In both cases, AIS data will be passed along raw.
     pub fn parse(&mut self, line: &[u8], decode: bool) -> Result<AisFragments> {
-        let (_, (data, mut ais_sentence, checksum)) = parse_nmea_sentence(line)?;
+        let (data, mut ais_sentence, checksum) = match parse_nmea_sentence(line) {
+            Ok((_, parsed)) => parsed,
+            #[cfg(all(not(feature = "std"), not(feature = "alloc")))]
+            Err(nom::Err::Failure(err)) if err.code == nom::error::ErrorKind::TooLarge => {
+                return Err(self.reject_oversized(line));
+            }
+            Err(err) => return Err(err.into()),
+        };
         Self::check_checksum(data, checksum)?;
         if ais_sentence.has_more() {
             if ais_sentence.fragment_number == 1 {
@@ -155,6 +162,31 @@ impl AisParser {
             }
             Ok(AisFragments::Complete(ais_sentence))
         }
+    }
+
+    /// Rejects a sentence whose payload does not fit the fixed-size buffer. The payload is
+    /// only copied once all fields are parsed, so the sentence is looked at again without it:
+    /// a fragment that would otherwise have been accepted leaves its group incomplete for
+    /// good, and the group is abandoned, just as when a fragment overflows the reassembly
+    /// buffer. Otherwise the parser is left untouched.
+    #[cfg(all(not(feature = "std"), not(feature = "alloc")))]
+    fn reject_oversized(&mut self, line: &[u8]) -> Error {
+        if let Ok((_, (data, ais_sentence, checksum))) =
+            parse_nmea_with(|data| parse_ais_fields(data, false), line)
+        {
+            if let Err(err) = Self::check_checksum(data, checksum) {
+                return err;
+            }
+            let opens = ais_sentence.has_more() && ais_sentence.fragment_number == 1;
+            let continues = self.message_id == ais_sentence.message_id
+                && self.fragment_number.checked_add(1) == Some(ais_sentence.fragment_number);
+            if ais_sentence.is_fragment() && (opens || continues) {
+                self.message_id = None;
+                self.fragment_number = 0;
+                self.data.clear();
+            }
+        }
+        Error::from("Payload too large")
     }
 
     fn verify_and_extend_data(&mut self, ais_sentence: &AisSentence) -> Result<()> {
@@ -231,6 +263,12 @@ fn parse_u8_digit(data: &[u8]) -> IResult<&[u8], u8> {
 
 /// Named parser for the AIS portion of an NMEA sentence
 fn parse_ais_sentence(data: &[u8]) -> IResult<&[u8], AisSentence> {
+    parse_ais_fields(data, true)
+}
+
+/// Parses the AIS portion of an NMEA sentence; unless `keep_payload` is set, the payload is
+/// checked but not copied into the sentence
+fn parse_ais_fields(data: &[u8], keep_payload: bool) -> IResult<&[u8], AisSentence> {
     let (data, talker_id) = map(take(2u8), Into::into)(data)?;
     let (data, report_type) = map(take(3u8), Into::into)(data)?;
     let (data, _) = tag(",")(data)?;
@@ -247,6 +285,7 @@ fn parse_ais_sentence(data: &[u8]) -> IResult<&[u8], AisSentence> {
     let (data, _) = tag(",")(data)?;
     let (data, fill_bit_count) = verify(parse_u8_digit, |val| *val < 6)(data)?;
     let (_, message_type) = messages::message_type(ais_data)?;
+    let ais_data = if keep_payload { ais_data } else { &ais_data[..0] };
     #[cfg(any(feature = "std", feature = "alloc"))]
     let ais_data_owned = ais_data.into();
     #[cfg(all(not(feature = "std"), not(feature = "alloc")))]
@@ -275,11 +314,19 @@ fn parse_ais_sentence(data: &[u8]) -> IResult<&[u8], AisSentence> {
 
 /// Named parser for an overall NMEA 0183 sentence
 fn parse_nmea_sentence(data: &[u8]) -> IResult<&[u8], (&[u8], AisSentence, u8)> {
+    parse_nmea_with(parse_ais_sentence, data)
+}
+
+/// Parses an overall NMEA 0183 sentence, using `parse_ais` for its AIS portion
+fn parse_nmea_with<'a>(
+    parse_ais: impl FnMut(&'a [u8]) -> IResult<&'a [u8], AisSentence>,
+    data: &'a [u8],
+) -> IResult<&'a [u8], (&'a [u8], AisSentence, u8)> {
     let (data, _) = opt(delimited(tag("\\"), take_until("\\"), tag("\\")))(data)?;
     let (data, _) = alt((tag("!"), tag("$")))(data)?;
     // The sentence proper ends at the first '*'; none of its fields may reach past it
     let (data, raw) = terminated(take_until("*"), tag("*"))(data)?;
-    let (_, msg) = all_consuming(parse_ais_sentence)(raw)?;
+    let (_, msg) = all_consuming(parse_ais)(raw)?;
     let (data, checksum) = verify(hex_u32, |val| val <= &0xff)(data)?;
     Ok((data, (raw, msg, checksum as u8)))
 }
